@@ -52,7 +52,6 @@ contract(
               ("c-range", f"PG(p) <= {I32} and implies(p.attributes['start'] is not None, -{I32} <= (secs(date) - secs(PStart(p))) / PG(p) and (secs(date) - secs(PStart(p))) / PG(p) <= {I32})")],
     calls={"p.dateToIdx_py": ("contract", PJ + "::Project.dateToIdx#py"),
            "p.dateToIdx_cy": ("contract", PJ + "::Project.dateToIdx#cy")},
-    may_raise=["AttributeError"],
 )
 contract(
     "lemma::pair_WorkingHours_onShift", props=["C13"],
